@@ -43,7 +43,15 @@ class Light(light.Light):
 class MultizoneLight(Light, i_controller.MultizoneLight):
     def __init__(self, impl, num_zones=None):
         super().__init__(impl)
-        self._num_zones = num_zones or len(self.get_zone_colors())
+        if not num_zones:
+            zones = self.get_zone_colors()
+            if zones is None:
+                # The light never answered; discovery is to treat that like any
+                # other unanswered request.
+                raise WorkflowException(
+                    'No zone information from "{}"'.format(self.get_name()))
+            num_zones = len(zones)
+        self._num_zones = num_zones
 
     def get_num_zones(self) -> int:
         return self._num_zones
@@ -77,6 +85,9 @@ class MatrixLight(Light, i_controller.MatrixLight):
         self._width = width
         if self._width is None or self._height is None:
             self._get_size()
+        if self._width is None or self._height is None:
+            raise WorkflowException(
+                'No size information from "{}"'.format(self.get_name()))
 
     @tries(_MAX_TRIES, WorkflowException)
     def _get_size(self) -> None:
